@@ -3,7 +3,7 @@
 import re, subprocess
 p = '/verif/DESIGN.md'
 s = open(p).read()
-for name in ['totals', 'rules', 'findings', 'seeded']:
+for name in ['totals', 'rules', 'findings', 'seeded', 'preserving']:
     tbl = subprocess.run(['python3', '/verif/tools/report.py', name], capture_output=True, text=True).stdout.strip()
     s = re.sub(r'(<!-- BEGIN GENERATED:%s -->).*?(<!-- END GENERATED:%s -->)' % (name, name), lambda m: m.group(1) + "\n" + tbl + "\n" + m.group(2), s, flags=re.S)
 open(p, 'w').write(s)
